@@ -5,7 +5,7 @@
     (self-referential EQU, deep nesting), allocation failure (huge RESB) and running time are
     runtime behaviour outside the model: see known findings and the fuzz/scaling exploration. *)
 From Coq Require Import List ZArith String Bool.
-From Gosk Require Import Base.Bytes Model.Ast Model.Asm Model.Encoder Lemmas.AsmLemmas Lemmas.NoPanicLemmas.
+From Gosk Require Import Base.Bytes Model.Ast Model.Asm Model.Encoder Lemmas.AsmLemmas Lemmas.NoPanicLemmas Model.Eval Lemmas.EvalTerm.
 Import ListNotations.
 Local Open Scope Z_scope.
 
@@ -34,3 +34,26 @@ Proof. exact x86_no_panic. Qed.
 Theorem C13_gosk_never_panics : forall p, assemble gosk_encoder p <> Panicked.
 Proof. exact gosk_assemble_never_panics. Qed.
 Print Assumptions C13_gosk_never_panics.
+
+(** "hangs": the expression evaluator terminates.  For EVERY expression - constant or symbolic, any nesting depth, memory
+    and segment operands included - evaluated against an EQU table that holds evaluated numbers (what pass 1 stores for
+    constant definitions), the model of Eval answers within fuel 2 * size; the Stuck outcome, which stands for unbounded
+    Go recursion, is unreachable.  The hypothesis matters: with a self-referential body in the table Stuck IS reached
+    (example below; pass 1 refuses to store such bodies since fixes 6679a29/29ece2e). *)
+Theorem C13_eval_terminates : forall env, nums_env env ->
+  forall fuel e, (2 * esize e <= fuel)%nat -> eval env fuel e <> Stuck.
+Proof. exact eval_terminates. Qed.
+Print Assumptions C13_eval_terminates.
+
+Theorem C13_eval_top_terminates : forall env, nums_env env -> forall e, eval_top env e <> Stuck.
+Proof. exact eval_top_terminates. Qed.
+Print Assumptions C13_eval_top_terminates.
+
+Example C13_nums_env_nonvacuous : nums_env {| macros := [("K"%string, Ast.ENum 10); ("L"%string, Ast.ENum (-1))]; eloc := 31744 |}.
+Proof.
+  intros s m H. cbn in H. destruct (String.eqb s "K"); [inversion H; eauto|].
+  destruct (String.eqb s "L"); [inversion H; eauto | discriminate].
+Qed.
+Example C13_cycle_is_stuck_without_hypothesis :
+  eval_top {| macros := [("A"%string, Ast.EImm (Ast.FId "A"%string))]; eloc := 0 |} (Ast.EImm (Ast.FId "A"%string)) = Stuck.
+Proof. vm_compute. reflexivity. Qed.
